@@ -88,3 +88,7 @@ func libDecode(w []byte) (model.Message, *message.IKEMessage, error) {
 }
 
 var bigTwo = big.NewInt(2)
+
+type bigInt = big.Int
+
+func newInt(v int64) *big.Int { return big.NewInt(v) }
